@@ -650,6 +650,8 @@ class Obligation(object):
 SOLVER_TIMEOUT_MS = int(os.environ.get('KVC_TIMEOUT_MS', '20000'))
 AUTO_LEMMA_MS = int(os.environ.get('KVC_AUTO_LEMMA_MS', '1500'))     # budget of the silently applied sum lemmas
 BRANCH_TIMEOUT_MS = 3000
+# robustness knob: shift z3's internal term numbering (argument order of normal forms depends on it); verdicts must not change
+_PERTURB = [z3.Real('perturb!%d' % i) + i for i in range(int(os.environ.get('KVC_PERTURB', '0') or 0))]
 
 
 class Ctx(object):
@@ -1214,6 +1216,145 @@ class _Abstraction(object):
         return True if hit is None else hit[3]
 
 
+class _UFAbstraction(object):
+    """second, more robust over-approximation (used when the constant abstraction is inconclusive):
+    (1) every arithmetic if-then-else is NAMED by a fresh constant with its two defining implications (no lifting out of
+        products, so nested case distinctions do not multiply);
+    (2) each formula is brought to sum-of-monomials form;
+    (3) products / quotients / powers of non-numeric terms become applications of uninterpreted functions (congruence is kept:
+        equal factors give equal products), with commutativity instances and the sign facts of real multiplication.
+    Only facts are forgotten, so `unsat` carries over to the original query."""
+
+    def __init__(self):
+        self.c1, self.c3, self.top = {}, {}, {}
+        self.defs, self.lemmas, self.keep = [], [], []
+        self.named, self.prods, self.byconst = {}, {}, {}
+        self.fn = {}
+        self.pending = []
+
+    def f(self, name, *sorts):
+        k = (name,) + tuple(str(x) for x in sorts)
+        if k not in self.fn:
+            self.fn[k] = z3.Function('%s!%d' % (name, len(self.fn)), *sorts)
+        return self.fn[k]
+
+    def ites(self, x):
+        k = x.get_id()
+        hit = self.c1.get(k)
+        if hit is not None:
+            return hit[0]
+        if z3.is_quantifier(x) or z3.is_var(x) or not z3.is_app(x) or x.num_args() == 0:
+            r = x
+        else:
+            ch = [self.ites(c) for c in x.children()]
+            y = x.decl()(*ch)
+            if z3.is_app_of(x, z3.Z3_OP_ITE) and z3.is_arith(x):
+                kk = y.get_id()
+                if kk not in self.named:
+                    v = z3.Real('ite!%d' % len(self.named)) if z3.is_real(x) else z3.Int('ite!%d' % len(self.named))
+                    self.named[kk] = (v, y)
+                    self.byconst[v.get_id()] = (ch[0], ch[1], ch[2])
+                    self.defs += [z3.Implies(ch[0], v == ch[1]), z3.Implies(z3.Not(ch[0]), v == ch[2])]
+                r = self.named[kk][0]
+            else:
+                r = y
+        self.c1[k] = (r, x)
+        return r
+
+    def mk(self, name, a, b, orig_kind):
+        fn = self.f(name, a.sort(), b.sort(), z3.RealSort() if (z3.is_real(a) or z3.is_real(b) or name == 'div') else z3.IntSort())
+        t = fn(a, b)
+        k = t.get_id()
+        if k not in self.prods:
+            self.prods[k] = t
+            if orig_kind == 'mul':
+                self.lemmas.append(t == self.f(name, b.sort(), a.sort(), t.sort())(b, a))
+                self.lemmas += _Abstraction.sign_lemmas(a * b, [a, b], t)
+                # a factor that is a named if-then-else: the product distributes over its two cases (one level; the cases
+                # mention further named constants, whose products get their own instances when they are built)
+                for v, o in ((a, b), (b, a)):
+                    d = self.byconst.get(v.get_id())
+                    if d is not None:
+                        self.pending.append((t, o, d))
+            elif orig_kind == 'div':
+                self.lemmas += _Abstraction.sign_lemmas(a / b, [a, b], t)
+        return t
+
+    def prods_(self, x):
+        k = x.get_id()
+        hit = self.c3.get(k)
+        if hit is not None:
+            return hit[0]
+        if z3.is_quantifier(x) or z3.is_var(x) or not z3.is_app(x) or x.num_args() == 0:
+            r = x
+        else:
+            ch = [self.prods_(c) for c in x.children()]
+            if z3.is_app_of(x, z3.Z3_OP_MUL):
+                nums = [c for c in ch if _num(c) is not None]
+                fs = sorted([c for c in ch if _num(c) is None], key=lambda t: t.get_id())
+                if len(fs) > 1:
+                    if any(z3.is_real(c) for c in fs):
+                        fs = [z3.ToReal(c) if z3.is_int(c) else c for c in fs]
+                    p = fs[0]
+                    for g in fs[1:]:
+                        p = self.mk('mul', p, g, 'mul')
+                    for n in nums:
+                        p = n * p
+                    r = p
+                else:
+                    r = x.decl()(*ch)
+            elif z3.is_app_of(x, z3.Z3_OP_DIV) and _num(ch[1]) is None:
+                a, b = ch
+                r = self.mk('div', z3.ToReal(a) if z3.is_int(a) else a, z3.ToReal(b) if z3.is_int(b) else b, 'div')
+            elif (z3.is_app_of(x, z3.Z3_OP_IDIV) or z3.is_app_of(x, z3.Z3_OP_MOD)) and _num(ch[1]) is None:
+                r = self.mk('idiv' if z3.is_app_of(x, z3.Z3_OP_IDIV) else 'mod', ch[0], ch[1], 'other')
+            elif z3.is_app_of(x, z3.Z3_OP_POWER):
+                n = _num(ch[1])
+                if n is not None and n == int(n) and 2 <= n <= 4:
+                    p = ch[0]
+                    for _ in range(int(n) - 1):
+                        p = self.mk('mul', p, ch[0], 'mul')
+                    r = p
+                else:
+                    r = self.mk('pow', ch[0], ch[1], 'other')
+            else:
+                r = x.decl()(*ch)
+        self.c3[k] = (r, x)
+        return r
+
+    def term(self, t):
+        k = t.get_id()
+        hit = self.top.get(k)
+        if hit is None:
+            a = self.ites(t)
+            nd = len(self.defs)
+            b = z3.simplify(a, som=True)
+            c = self.prods_(b)
+            hit = (c, t, a, b)
+            self.top[k] = hit
+        return hit[0]
+
+    def query(self, terms):
+        out = [self.term(t) for t in terms]
+        # definitions of the named ites may themselves contain products / further ites: process to a fixed point
+        done = self.__dict__.setdefault('_defs_done', [])
+        st = self.__dict__.setdefault('_defs_i', [0])
+        while st[0] < len(self.defs) or self.pending:
+            while st[0] < len(self.defs):
+                d = self.defs[st[0]]
+                done.append(self.prods_(z3.simplify(d, som=True)))
+                self.keep.append(d)
+                st[0] += 1
+            while self.pending:
+                t, o, (cnd, a, b) = self.pending.pop()
+                ca = self.prods_(z3.simplify(o * a, som=True))
+                cb = self.prods_(z3.simplify(o * b, som=True))
+                cc = self.prods_(z3.simplify(cnd, som=True))
+                done += [z3.Implies(cc, t == ca), z3.Implies(z3.Not(cc), t == cb)]
+                self.keep += [ca, cb, cc]
+        return out + list(done) + list(self.lemmas)
+
+
 def _abstract_nl(terms, ab=None):
     """-> (abstracted terms + sign lemmas, number of the given terms that contain a nonlinear sub-term)"""
     ab = ab or _Abstraction()
@@ -1285,6 +1426,9 @@ def _forked(assertions, cpu_s, want_model=False, tactic=None):
     return d['r'], d.get('m'), d.get('why', '')
 
 
+_DUMPN = [0]
+
+
 def discharge(hyps, goal, timeout_ms, quick=False):
     """returns verdict ('proved'|'refuted'|'undecided'), model (concretised dict) or None, backend, reason.
     (A) nonlinear sub-terms abstracted to fresh constants + sign lemmas: linear + UF, in process, only `unsat` is used
@@ -1293,6 +1437,13 @@ def discharge(hyps, goal, timeout_ms, quick=False):
     (C) nlsat tactic, then cvc5 / z3 4.8 on an SMT-LIB dump."""
     ver = 'z3-' + z3.get_version_string()
     nfresh = 1
+    if os.environ.get('KVC_DUMP_DIR') and not quick:
+        _DUMPN[0] += 1
+        _s = z3.Solver()
+        for h in hyps:
+            _s.add(h)
+        _s.add(z3.Not(goal))
+        open(os.path.join(os.environ['KVC_DUMP_DIR'], 'q%04d.smt2' % _DUMPN[0]), 'w').write(_s.to_smt2())
     # (A0) polynomial identities: lhs - rhs normalises to 0 (sum-of-monomials normal form of the simplifier)
     try:
         gs = z3.simplify(goal)
@@ -1326,6 +1477,18 @@ def discharge(hyps, goal, timeout_ms, quick=False):
         pass
     if quick:
         return 'undecided', None, ver, 'abstraction inconclusive'
+    # (A2) if-then-else terms named, products uninterpreted (congruence kept): linear + UF, in process, only `unsat` is used
+    try:
+        if nfresh:
+            uf = c.__dict__.setdefault('_ufabst', _UFAbstraction()) if c is not None else _UFAbstraction()
+            sb = z3.Solver()
+            sb.set('timeout', min(max(timeout_ms, 2000), 10000))
+            for h in uf.query(list(hyps) + [z3.Not(goal)]):
+                sb.add(h)
+            if sb.check() == z3.unsat:
+                return 'proved', None, ver + ' (if-then-else named, products uninterpreted)', ''
+    except z3.Z3Exception:
+        pass
     cpu = max(2, timeout_ms // 1000)
     r, m, why = _forked(list(hyps) + [z3.Not(goal)], cpu, want_model=True)
     if r == 'unsat':
